@@ -180,6 +180,13 @@ func (vt *Model) StartWithSize(cmd *exec.Cmd, width int, height int) error {
 					return
 				default:
 					vt.update(seq)
+					// Deliver what the sequence raised right away.
+					// This goroutine is the only consumer of
+					// vt.events: if the queue ever filled up, update
+					// would block on it forever
+					for len(vt.events) > 0 {
+						vt.eventHandler(<-vt.events)
+					}
 				}
 			case ev := <-vt.events:
 				vt.eventHandler(ev)
